@@ -69,8 +69,10 @@ def run(ctx, model):
         ctx.note("Date's private helpers are not under their pinned names: formats are evaluated through the constructor")
     # ---------------- formats
     ctx.instance("R-DATE-FORMATS", key="list", sample=f"{len(fmts) if isinstance(fmts, list) else fmts!r} formats: {list(fmts)[:6] if isinstance(fmts, list) else ''}...")
+    if k == "value" and isinstance(fmts, tuple):
+        fmts = list(fmts)
     if k != "value" or not isinstance(fmts, list):
-        raise AnalysisError("__date_formats did not evaluate to a list")
+        raise AnalysisError("__date_formats did not evaluate to a list / tuple of formats")
     if sorted(fmts) != sorted(want) or len(set(fmts)) != len(fmts):
         ctx.violation("R-DATE-FORMATS", f_fmt.relpath, f_fmt.short, "format list",
                       "the list of valid date formats is not exactly the 48 documented ones", f_fmt.node.lineno,
